@@ -21,6 +21,7 @@ func runC14(c *Ctx) {
 	c.Clause("C14.2 bytesSent/bytesReceived/peerAddressValidated: who may write, store shapes, validation only on a server Handshake packet or from the constructor flag")
 	c.Clause("C14.3 the address-validated flag given to a new server connection is validateToken's result (or false); validateToken's address and age checks each return false; Retry connection IDs are taken from the token only for Retry tokens")
 	c.Clause("C14.4 DecodeToken has no fallback: AEAD failure, ASN.1 failure and trailing bytes are errors; the protector returns aead.Open's result as is")
+	c.Clause("C14.5 the budget counts real datagram sizes: ReceivedBytes gets the dequeued datagram's Size() = len(data); every SentPacket size in the root package is a packet's recorded length, which is len(raw) of the slice by which the packet buffer grew")
 	c.NotCovered("the running 3x inequality over arrival/loss histories and the '+ one packet' slack")
 	c.NotCovered("cryptographic strength of token sealing")
 
@@ -29,6 +30,7 @@ func runC14(c *Ctx) {
 	c.rule("C14.3", func() { c14Server(c) })
 	c.rule("C14.3", func() { c14Encode(c) })
 	c.rule("C14.4", func() { c14Token(c) })
+	c.rule("C14.5", func() { c14AccountingOrigins(c) })
 }
 
 func c14Limit(c *Ctx) {
